@@ -45,6 +45,9 @@ def judge(rec, kind, init, m, fault):
     want = assigned[-1] if assigned else init
     got = rec.get("user_state")
     if not (got == want and type(got) is type(want)):
+        if fault == 4 and got == (False, None):
+            # the server's forced terminate wrote its fabricated result after the child's own result frame
+            return "c16.forced-terminate-result-read-as-user-state", True
         return "c16.parent-state-not-last-child-state", True
     if rec.get("setter") != "RuntimeError":
         return "c16.parent-assignment-not-rejected", True
@@ -54,9 +57,9 @@ def judge(rec, kind, init, m, fault):
 def make_h(kind):
     def h(init, end, m, fault, k):
         with notrace():
-            init_, end_, m_, fault_ = conc(init, len(INIT)), conc(end, len(ENDS)), conc(m, 4), conc(fault, 3)
-            if fault_ == 2:
-                fault_ = 3          # 0 none / 1 graceful terminate at child point k / 3 slow forwarding thread at its point k
+            init_, end_, m_, fault_ = conc(init, len(INIT)), conc(end, len(ENDS)), conc(m, 4), conc(fault, 4)
+            if fault_ >= 2:
+                fault_ += 1         # 0 none / 1 graceful terminate at child point k / 3 slow forwarding thread / 4 slow child + terminate
             k_ = conc(k, KMAX[kind] + 12) if fault_ else 0
             ev("c16", wsim.KIND_NAMES[kind], init_, end_, m_, fault_, k_)
             rec = wscen.scenario(kind, ENDS[end_][0], ENDS[end_][1], fault_, k_, init_state=INIT[init_], stateful=True, m=m_)
@@ -108,9 +111,10 @@ def h_restart(kind, init, m, chain):
 
 def _harness(kind):
     name = wsim.KIND_NAMES[kind]
-    fmax = 2 if wsim.is_remote_kind(kind) else 1
+    fmax = 3 if wsim.is_remote_kind(kind) else 1
     params = OrderedDict([("init", (0, len(INIT) - 1)), ("end", (0, len(ENDS) - 1)), ("m", (0, 3)), ("fault", (0, fmax)), ("k", (0, KMAX[kind] + 11))])
-    quick = {"ranges": {"init": (0, 2), "m": (0, 2)}, "partition": ["fault", "m", "end"], "timeout": 300, "twin_fixed": {"fault": 0, "m": 2, "end": 0}}
+    quick = {"ranges": {"init": (0, 2), "m": (0, 2)}, "partition": ["fault", "m", "end"], "timeout": 300, "extra_pre": ["fault <= 1 or init == 1"],
+             "twin_fixed": {"fault": 0, "m": 2, "end": 0}}
     thorough = {"partition": ["fault", "m", "init", "end"], "timeout": 900, "twin_fixed": {"fault": 0, "m": 2, "init": 1, "end": 0}}
     return Harness(name, "vf.props.c16:h_%s" % name, params, tiers={"quick": quick, "thorough": thorough},
                    functions=_FUNCS + ["pyworkers.worker:Worker.user_state", "pyworkers.persistent:PersistentWorker.restart",
@@ -133,6 +137,8 @@ SPEC = PropSpec(
         "restart chains: each incarnation processes one item, its first action is to record the user_state it starts from",
         "remote kinds, fault 3: the parent-side forwarding thread sleeps 3 model seconds at its k-th statement (e.g. between receiving the result and the "
         "state); if the parent then sees the worker dead with a reported outcome, user_state must already be synchronised",
+        "remote kinds, fault 4: the child sleeps 3 model seconds at its k-th statement while the parent calls terminate(timeout=5) (the server side waits 1 s, "
+        "then kills the child and writes a fabricated result on the data connection)",
     ],
     outside=["the window between the frontend thread storing the state and that thread exiting", "SIGKILL endings (nothing can be reported)"],
     stubs=["vf/simos.py"],
